@@ -145,3 +145,13 @@ package rlp
 //@   modifies b[_]
 //@   ensures keyIdx(content(r)) == i
 //@   ensures fresh(r) || (sameArray(r, b) && cap(b) > len(b))
+
+// ---------------------------------------------------------------- C16: a flushed encoder buffer holds nothing
+// After Flush the buffer went back to the pool: the EncoderBuffer must not keep a reference to it
+// (a later Reset would otherwise keep writing into a buffer another encoder owns).
+//@ trusted func (buf *encBuffer) writeTo(w io.Writer) (err error)
+//@ func (w *EncoderBuffer) Flush() (err error)
+//@   for C16
+//@   requires w != nil
+//@   modifies w.buf, w.dst, w.ownBuffer
+//@   ensures [releasedBufferForgotten] w.buf == nil && w.dst == nil && !w.ownBuffer
